@@ -129,3 +129,32 @@ def reference_text(script):
                                   break_long_words=False, break_on_hyphens=False)
             out.append(lines + '\n')
     return ''.join(out)
+
+
+# ---------------------------------------------------------------- namespaces and items for the table contracts (C02)
+
+def build_namespace(n_items):
+    import stone.ir.api as api
+    import stone.ir.data_types as dt
+    ns = api.ApiNamespace('n')
+    for i in range(n_items):
+        ns.add_data_type(dt.Struct('T%d' % i, ns, None))
+        ns.add_alias(dt.Alias('A%d' % i, ns, None))
+        ns.add_annotation_type(dt.AnnotationType('Y%d' % i, ns, None, []))
+        ns.add_annotation(dt.Deprecated('D%d' % i, ns, None))
+    return ns
+
+
+def build_item(kind, name):
+    import stone.ir.api as api
+    import stone.ir.data_types as dt
+    ns = api.ApiNamespace('n')
+    if kind == 'struct':
+        return dt.Struct(name, ns, None)
+    if kind == 'union':
+        return dt.Union(name, ns, None, True)
+    if kind == 'alias':
+        return dt.Alias(name, ns, None)
+    if kind == 'annotation_type':
+        return dt.AnnotationType(name, ns, None, [])
+    return dt.Deprecated(name, ns, None)
